@@ -22,8 +22,9 @@ static struct vsock vs[NS];
 static unsigned char in0[BIGCAP], out0[BIGCAP], in1[CAP], out1[CAP], in2[CAP], out2[CAP];
 #define FD0 100
 static void vpump(int fd);
+static void (*vidle[3])(int);
 static struct vsock* S(int fd) { int i = fd - FD0; if (i < 0 || i >= NS || !vs[i].used) return 0; return &vs[i]; }
-int vp_sock_new(void) { for (int i = 0; i < NS; i++) if (!vs[i].used) { vs[i].in = i == 0 ? in0 : i == 1 ? in1 : in2; vs[i].out = i == 0 ? out0 : i == 1 ? out1 : out2; vs[i].in_cap = vs[i].out_cap = i == 0 ? BIGCAP : CAP; vs[i].used = 1; vs[i].open = 1; vs[i].closed_by_peer = 0; vs[i].fragment = 0; vs[i].in_n = vs[i].in_pos = vs[i].out_n = 0; return FD0 + i; } return -1; }
+int vp_sock_new(void) { for (int i = 0; i < NS; i++) if (!vs[i].used) { vs[i].in = i == 0 ? in0 : i == 1 ? in1 : in2; vs[i].out = i == 0 ? out0 : i == 1 ? out1 : out2; vs[i].in_cap = vs[i].out_cap = i == 0 ? BIGCAP : CAP; vs[i].used = 1; vs[i].open = 1; vs[i].closed_by_peer = 0; vs[i].fragment = 0; vs[i].in_n = vs[i].in_pos = vs[i].out_n = 0; vidle[i] = 0; return FD0 + i; } return -1; }
 void vp_sock_feed(int fd, const void* data, int n) { struct vsock* s = S(fd); const unsigned char* d = (const unsigned char*)data; for (int i = 0; i < n && s->in_n < s->in_cap; i++) s->in[s->in_n++] = d[i]; }
 void vp_sock_peer_close(int fd) { S(fd)->closed_by_peer = 1; }
 int vp_sock_sent(int fd, void* out, int cap) { struct vsock* s = S(fd); unsigned char* o = (unsigned char*)out; int n = s->out_n < cap ? s->out_n : cap; for (int i = 0; i < n; i++) o[i] = s->out[i]; return s->out_n; }
@@ -106,9 +107,13 @@ int getsockname(int fd, void* addr, unsigned* len) { if (!S(fd)) { PASS(51, fd, 
 static void (*vserver)(int);
 static int vpair[NS]; static int vserved[NS];
 void vp_sock_set_server(void (*fn)(int)) { vserver = fn; for (int i = 0; i < NS; i++) { vpair[i] = -1; vserved[i] = 0; } }
+void vp_sock_on_idle(int fd, void (*fn)(int)) { int i = fd - FD0; if (i >= 0 && i < NS) vidle[i] = fn; }
 static void vpump(int fd)
 {
 	int i = fd - FD0;
+	/* an idle callback plays the peer that reacts to what it has received: it runs whenever the code under test looks
+	   for input, none is pending and the peer has not closed; it may feed more bytes or close */
+	if (i >= 0 && i < NS && vidle[i] && vs[i].used && vs[i].in_n - vs[i].in_pos == 0 && !vs[i].closed_by_peer) { void (*fn)(int) = vidle[i]; fn(fd); }
 	if (!vserver || i < 0 || i >= NS || vpair[i] < 0 || vserved[i]) return;
 	struct vsock* c = &vs[i]; struct vsock* sv = S(vpair[i]);
 	if (c->in_n - c->in_pos > 0 || c->out_n == 0) return;
